@@ -290,7 +290,11 @@ func idsOnly(ts []indexedToken) []tokenID {
 
 const oovLetters = "bcdfgjkvwxz"
 
-var oovNonASCII = []string{"\u00e9", "\u00df", "\u03a9", "\u4e2d", "\u0130", "\u01c5", "\u023a", "\u212a", "\U0001d400", "\uff15", "e\u0301", "\ufb01"}
+// letters of two to four bytes; some change their byte length under case mapping, and the second row holds letters
+// whose code point ends in the byte of a character the tokenizer treats specially (LF, CR, TAB, blank, '-', '&', '(',
+// ')', '.', ':'): code that narrows a rune to a byte before comparing confuses them
+var oovNonASCII = []string{"\u00e9", "\u00df", "\u03a9", "\u4e2d", "\u0130", "\u01c5", "\u023a", "\u212a", "\U0001d400", "\uff15", "e\u0301", "\ufb01",
+	"\u010a", "\u4e0a", "\u010d", "\u0109", "\u0120", "\u4e20", "\u012d", "\u0126", "\u0128", "\u0129", "\u012e", "\u013a", "a\u030a"}
 
 // oovWord returns the k-th manufactured out-of-vocabulary word, verified against c's dictionary.
 func oovWord(c *Classifier, k int) string {
